@@ -142,7 +142,7 @@ def run(tier, seed):
             raise vlib.ToolError("configuration dump unexpectedly small")
         sc1 = model_scenarios(edges, rng)
         n1 = validate(sc1, wd, "mdl", rep, 8)
-        sc2 = random_scenarios(rng, 300 if q else 5000)
+        sc2 = random_scenarios(rng, 300 if q else 25000)
         n2 = validate(sc2, wd, "rnd", rep, 8 if q else 14)
         shapes = {(len(s["_argv"]), len(s["_envp"]), s["_L"], s["actions"][0]["start"], tuple(sorted(len(x) for x in s["_argv"] + s["_envp"]))) for s in sc1 + sc2}
         rep.cov.update({
